@@ -179,8 +179,16 @@ def run(ctx):
         vlib.write_ndjson(os.path.join(wd, "trees.ndjson"), trees)
         json.dump(AUX, open(os.path.join(wd, "aux.json"), "w"))
         env = {"CASES": os.path.join(wd, "trees.ndjson"), "AUX": os.path.join(wd, "aux.json")}
-        clean, _ = vlib.tlc_simulate(FAMILY, "Syntax.tla", "Sim_clean.cfg", nclean, 600, env, tag="c16-clean", timeout=3400)
-        faulty, _ = vlib.tlc_simulate(FAMILY, "Syntax.tla", "Sim_faulty.cfg", nfaulty, 600, env, tag="c16-faulty", timeout=3400)
+        # TLC interns every string value it ever builds (each step of each candidate successor extends `text`): a simulation of
+        # more than a few million states exhausts the heap and crawls.  Hence one JVM per 2000 behaviours.
+        def simulate(cfg, total, tag):
+            out = []
+            for k in range(0, total, 2000):
+                part, _ = vlib.tlc_simulate(FAMILY, "Syntax.tla", cfg, min(2000, total - k), 600, env, tag=f"{tag}-{k // 2000}", timeout=900)
+                out += part
+            return out
+        clean = simulate("Sim_clean.cfg", nclean, "c16-clean")
+        faulty = simulate("Sim_faulty.cfg", nfaulty, "c16-faulty")
         seen, cases = set(), []
         for b in clean + faulty:
             t = trees[b["i"] - 1]
